@@ -14,7 +14,8 @@ LEAN_TARGETS = ['DeepModel.Props.C10']
 AUDIT = 'DeepModel/Audit/C10.lean'
 DRIVER = 'DeepModel/Driver/C10.lean'
 BUDGET = {'quick': 1500, 'thorough': 15000}
-RULE = ('histories: action kind (snapshot / log / metric) x fire_count text x fire_period text x condition text '
+RULE = ('histories: action kind (snapshot / log / metric / span and combinations of them on one tracepoint; line and '
+        'method-entry tracepoints; span processor present or absent) x fire_count text x fire_period text x condition text '
         '(absent, blank, an expression) x up to 30 hits with a scripted clock (period boundary +-1 ns) whose condition '
         'is True / False / raises one of 15 exception classes (BaseException subclasses included, messages include '
         'the truthy words) — the condition function counts its calls, so "limits first" is observed; a second stream '
@@ -38,7 +39,9 @@ ASSUMPTIONS = ['conditions are boolean-valued or failing (the statement\'s quant
 
 COUNTS = [None, '-1', '1', '2', '3', 'abc', '0']
 PERIODS = [None, '0', '1', '1000', 'x']
-KINDS = ['snapshot', 'log', 'metric']
+KINDS = ['snapshot', 'log', 'metric', 'span']
+# one tracepoint may carry several actions (each action context class gates on its own): combinations
+COMBOS = ['snapshot+metric', 'snapshot+span', 'metric+span', 'log+span', 'log+metric+span', 'snapshot+metric+span']
 CONDITIONS = ['cond()'] * 6 + [' cond() ', 'cond( )', None, '', '   ', '\t']
 TRUTHY = ['yes', 'true', 't', '1', 'y', 'True', 'YES', 'T', 'Y']
 MSGS = ['boom', 'condition fails', '', 'no', '0', 'false'] + TRUTHY
@@ -98,7 +101,13 @@ def gen_history(rng, nonbool=False):
                 msg = rng.choice([1, 'y', 't', 0])          # str(KeyError(1)) == '1'
             cond = {'k': 'raise', 'cls': cls, 'msg': msg}
         hits.append({'ts': ts, 'cond': cond})
-    return {'kind': 'history', 'stream': 'nonbool' if nonbool else 'bool', 'action': rng.choice(KINDS), 'cfg': cfg,
+    action = rng.choice(KINDS + KINDS + COMBOS)
+    extra = {}
+    if rng.random() < 0.25:
+        extra['entry'] = True                      # a method-entry tracepoint (`method_name`, fires on the call event)
+    if 'span' in action and rng.random() < 0.15:
+        extra['span_proc'] = False                 # no span processor active
+    return {**extra, 'kind': 'history', 'stream': 'nonbool' if nonbool else 'bool', 'action': action, 'cfg': cfg,
             'condition': rng.choice(CONDITIONS), 'hits': hits}
 
 
@@ -249,6 +258,12 @@ def corpus():
          'watches': ['G', 'uuid', 'FrameType', 'time_ns', 'x', 'len', 'p', 'p + 1', 'nope'],
          'condition': 'G == "G:G"', 'frame_type': None, 'log_fields': ['G', 'FrameType'],
          'metric': {'expr': 'p', 'labels': [['l1', 'G'], ['l2', 'uuid'], ['l3', 'time_ns']]}},
+        # a span tracepoint (and a method-entry one) is gated by its condition like any other action
+        {'kind': 'history', 'stream': 'bool', 'action': 'span', 'cfg': {'fire_count': '-1', 'fire_period': '0'},
+         'condition': 'cond()', 'hits': [{'ts': 10, 'cond': f}, {'ts': 20, 'cond': {'k': 'raise', 'cls': 'ValueError', 'msg': 'true'}},
+                                         {'ts': 30, 'cond': t}]},
+        {'kind': 'history', 'stream': 'bool', 'action': 'snapshot+metric+span', 'entry': True, 'cfg': {'fire_count': '1'},
+         'condition': 'cond()', 'hits': [{'ts': 10, 'cond': f}, {'ts': 20, 'cond': t}, {'ts': 9 * 10 ** 9, 'cond': t}]},
         # two threads expanding a log message at once: every field is evaluated in the frame of its own hit
         {'kind': 'conc', 'mode': 'log', 'fields': ['pause()', 'a', 'GSTR', 'who'], 'sched': [0, 1, 1, 0]},
         {'kind': 'conc', 'mode': 'snap', 'fields': ['who', 'pause()', 's', 'GNUM + a'], 'sched': [0, 1, 0, 1]},
@@ -283,29 +298,53 @@ def hit_outcome(cond):
     return X.describe(X.build_value(cond['v']))
 
 
+def kinds_of(action):
+    return action.split('+')
+
+
+def tp_args(action, cfg, condition, entry=False, idx=''):
+    """tracepoint args + metric list for a tracepoint carrying the given action kinds"""
+    from deep.api.tracepoint.tracepoint_config import MetricDefinition
+    kinds = kinds_of(action)
+    args = {}
+    if condition is not None:
+        args['condition'] = condition
+    for k in ('fire_count', 'fire_period'):
+        if k in cfg:
+            args[k] = cfg[k]
+    if 'snapshot' in kinds:
+        args['frame_type'] = 'no_frame'
+    else:
+        args['snapshot'] = 'no_collect'
+    if 'log' in kinds:
+        args['log_msg'] = 'hit'
+    if 'span' in kinds:
+        args['span'] = 'method' if entry else 'line'
+    if entry:
+        args['method_name'] = 'fn'
+    metrics = [MetricDefinition('m%s' % idx, 'COUNTER')] if 'metric' in kinds else []
+    return args, metrics
+
+
 def build_history_trigger(case):
     from deep.api.tracepoint.trigger import build_trigger
-    from deep.api.tracepoint.tracepoint_config import MetricDefinition
-    args = {}
-    if case['condition'] is not None:
-        args['condition'] = case['condition']
-    for k in ('fire_count', 'fire_period'):
-        if k in case['cfg']:
-            args[k] = case['cfg'][k]
-    metrics = []
-    if case['action'] == 'log':
-        args['snapshot'] = 'no_collect'
-        args['log_msg'] = 'hit'
-    elif case['action'] == 'metric':
-        args['snapshot'] = 'no_collect'
-        metrics = [MetricDefinition('m', 'COUNTER')]
-    else:
-        args['frame_type'] = 'no_frame'
+    args, metrics = tp_args(case['action'], case['cfg'], case['condition'], case.get('entry', False))
     return build_trigger('tp1', 'host.py', 7, args, [], metrics)
 
 
+def flush_callbacks(rig, loc):
+    """give pending span callbacks the following events of the function (next line, return)"""
+    rig.handler.trace_call(MockFrame('/app/host.py', 'fn', 8, loc), 'line', None)
+    rig.handler.trace_call(MockFrame('/app/host.py', 'fn', 8, loc), 'return', None)
+
+
+def effect_counts(rig):
+    return {'snapshot': len(rig.push.pushed), 'log': len(rig.logger.logged), 'metric': len(rig.metric.calls),
+            'span': len([e for e in rig.span.events if e[0] == 'open']) if rig.span else 0}
+
+
 def run_history(case):
-    rig = Rig(metric=True)
+    rig = Rig(metric=True, span=case.get('span_proc', True))
     try:
         rig.install([build_history_trigger(case)])
         state = {'cond': None, 'calls': 0}
@@ -318,42 +357,41 @@ def run_history(case):
             if c['k'] == 'value':
                 return X.build_value(c['v'])
             return c['k'] == 'true'
-        fired, evals = [], []
+        kinds = kinds_of(case['action'])
+        fired, evals, by_kind = [], [], {k: [] for k in kinds}
+        event = 'call' if case.get('entry') else 'line'
         for h in case['hits']:
             state['cond'] = h['cond']
             state['calls'] = 0
             rig.clock = h['ts']
-            before = rig.effect_count()
-            frame = MockFrame('/app/host.py', 'fn', 7, {'cond': cond, 'x': 1})
+            before = effect_counts(rig)
+            loc = {'cond': cond, 'x': 1}
             try:
-                rig.handler.trace_call(frame, 'line', None)
+                rig.handler.trace_call(MockFrame('/app/host.py', 'fn', 7, loc), event, None)
+                n_calls = state['calls']
+                flush_callbacks(rig, loc)
             except BaseException as e:  # noqa: B902 — the agent must not raise; report it
-                return {'raised': f'{type(e).__name__}: {e}', 'fired': fired, 'evals': evals}
-            fired.append(rig.effect_count() > before)
-            evals.append(state['calls'])
-        return {'fired': fired, 'evals': evals}
+                return {'raised': f'{type(e).__name__}: {e}', 'fired': fired, 'evals': evals, 'by_kind': by_kind}
+            after = effect_counts(rig)
+            for k in by_kind:
+                by_kind[k].append(after[k] - before[k])
+            stray = {k: after[k] - before[k] for k in after if k not in by_kind and after[k] != before[k]}
+            if stray:
+                by_kind.setdefault('stray', []).append(stray)
+            fired.append(any(after[k] > before[k] for k in after))
+            evals.append(n_calls)
+        return {'fired': fired, 'evals': evals, 'by_kind': by_kind}
     finally:
         rig.close()
 
 
 def run_multi(case):
     from deep.api.tracepoint.trigger import build_trigger
-    from deep.api.tracepoint.tracepoint_config import MetricDefinition
-    rig = Rig(metric=True)
+    rig = Rig(metric=True, span=True)
     try:
         trigs = []
         for i, tp in enumerate(case['tps']):
-            args = dict(tp['cfg'])
-            if tp['condition'] is not None:
-                args['condition'] = tp['condition']
-            metrics = []
-            if tp['action'] == 'log':
-                args.update(snapshot='no_collect', log_msg='hit')
-            elif tp['action'] == 'metric':
-                args['snapshot'] = 'no_collect'
-                metrics = [MetricDefinition('m%d' % i, 'COUNTER')]
-            else:
-                args['frame_type'] = 'no_frame'
+            args, metrics = tp_args(tp['action'], tp['cfg'], tp['condition'], False, i)
             trigs.append(build_trigger('tp%d' % i, 'host.py', 7, args, [], metrics))
         if case['install'] == 'merged':       # what grpc.convert_response does with tracepoints of one location
             for t in trigs[1:]:
@@ -377,16 +415,19 @@ def run_multi(case):
             state['conds'] = h['conds']
             state['calls'] = [0] * n
             rig.clock = h['ts']
-            b = (len(rig.push.pushed), len(rig.logger.logged), len(rig.metric.calls))
+            b = (len(rig.push.pushed), len(rig.logger.logged), len(rig.metric.calls), len(rig.span.events))
             try:
                 rig.handler.trace_call(MockFrame('/app/host.py', 'fn', 7, dict(loc)), 'line', None)
+                calls = list(state['calls'])
+                flush_callbacks(rig, dict(loc))
             except BaseException as e:  # noqa: B902
                 return {'raised': f'{type(e).__name__}: {e}', 'fired': fired, 'evals': evals}
             who = [s.tracepoint.id for s in rig.push.pushed[b[0]:]] + [l[1] for l in rig.logger.logged[b[1]:]] + \
-                  ['tp' + c[1][1:] for c in rig.metric.calls[b[2]:]]
+                  ['tp' + c[1][1:] for c in rig.metric.calls[b[2]:]] + \
+                  [e[3] for e in rig.span.events[b[3]:] if e[0] == 'open']
             for i in range(n):
                 fired[i].append(who.count('tp%d' % i))
-                evals[i].append(state['calls'][i])
+                evals[i].append(calls[i])
         return {'fired': fired, 'evals': evals}
     finally:
         rig.close()
@@ -665,16 +706,28 @@ def oracle(case, obs):
         return v[:4]
     if case['kind'] == 'history':
         fired, evals = reference_history(case)
-        if obs['fired'] != fired:
-            i = next(i for i, (a, b) in enumerate(zip(obs['fired'], fired)) if a != b)
-            h = case['hits'][i]
-            v.append(f'hit {i} (ts={h["ts"]}, condition {h["cond"]}) ' +
-                     ('collected although its condition did not evaluate to true or its limits forbid it'
-                      if obs['fired'][i] else 'did not collect although limits and condition permit it '
-                      '(budget used by an earlier rejected hit?)'))
-        if obs['evals'] != evals:
-            i = next(i for i, (a, b) in enumerate(zip(obs['evals'], evals)) if a != b)
-            v.append(f'hit {i}: condition evaluated {obs["evals"][i]} times, expected {evals[i]} (limits are checked first)')
+        total = [0] * len(case['hits'])
+        for k in kinds_of(case['action']):
+            kf, ke = fired, evals
+            if k == 'span' and not case.get('span_proc', True):
+                kf, ke = [False] * len(fired), [0] * len(fired)       # no processor: the action is skipped altogether
+            got = [x == 1 for x in obs['by_kind'][k]]
+            if any(x > 1 for x in obs['by_kind'][k]):
+                v.append(f'{k} action: more than one effect at one hit: {obs["by_kind"][k]}')
+            elif got != kf:
+                i = next(i for i, (a, b) in enumerate(zip(got, kf)) if a != b)
+                h = case['hits'][i]
+                v.append(f'{k} action, hit {i} (ts={h["ts"]}, condition {h["cond"]}) ' +
+                         ('fired although its condition did not evaluate to true or its limits forbid it'
+                          if got[i] else 'did not fire although limits and condition permit it '
+                          '(budget used by an earlier rejected hit?)'))
+            total = [a + b for a, b in zip(total, ke)]
+        if obs['by_kind'].get('stray'):
+            v.append(f'effects of action kinds the tracepoint does not have: {obs["by_kind"]["stray"]}')
+        if obs['evals'] != total:
+            i = next(i for i, (a, b) in enumerate(zip(obs['evals'], total)) if a != b)
+            v.append(f'hit {i}: condition evaluated {obs["evals"][i]} times, expected {total[i]} (once per action whose '
+                     f'limits allow the hit; limits are checked first)')
         return v
     g, loc = scope_reference(case)
     cond = case.get('condition')
@@ -748,12 +801,15 @@ def model_request(case, obs):
             reqs.append({'exprs': case['fields'], 'oracle': [{'e': f, 'o': X.outcome(f, g, loc)} for f in set(case['fields'])]})
         return {'op': 'evalallN', 'threads': reqs}
     if case['kind'] == 'multi':
-        return {'op': 'runN', 'runs': [model_request(hc, obs) for hc in multi_as_histories(case)]}
+        return {'op': 'runN', 'runs': [model_request(hc, obs)['runs'][0] for hc in multi_as_histories(case)]}
     if case['kind'] == 'history':
         cfg = dict(case['cfg'])
         if case['condition'] is not None:
             cfg['condition'] = case['condition']
-        return {'op': 'run', 'cfg': cfg, 'hits': [{'ts': h['ts'], 'cond': hit_outcome(h['cond'])} for h in case['hits']]}
+        hits = [{'ts': h['ts'], 'cond': hit_outcome(h['cond'])} for h in case['hits']]
+        return {'op': 'runN', 'runs': [{'cfg': cfg, 'hits': hits, 'action': k,
+                                        'has_proc': case.get('span_proc', True) if k == 'span' else True}
+                                       for k in kinds_of(case['action'])]}
     if case['names'] and obs.get('snapshots'):
         return {'op': 'resolve', 'names': name_bindings(case)}
     return None
@@ -796,10 +852,14 @@ def compare(case, obs, resp):
         return d
     if case['kind'] == 'history':
         d = []
-        if resp['fired'] != obs['fired']:
-            d.append(f'fired: model {resp["fired"]} vs implementation {obs["fired"]}')
-        if resp['evals'] != obs['evals']:
-            d.append(f'condition evaluations: model {resp["evals"]} vs implementation {obs["evals"]}')
+        total = [0] * len(case['hits'])
+        for k, r in zip(kinds_of(case['action']), resp['runs']):
+            got = [x == 1 for x in obs['by_kind'][k]]
+            if r['fired'] != got:
+                d.append(f'{k} action fired: model {r["fired"]} vs implementation {obs["by_kind"][k]}')
+            total = [a + b for a, b in zip(total, r['evals'])]
+        if total != obs['evals']:
+            d.append(f'condition evaluations: model {total} vs implementation {obs["evals"]}')
         return d
     d = []
     by_expr = {}
@@ -823,7 +883,8 @@ def label(case, obs):
     if case['kind'] == 'history':
         f = obs.get('fired', [])
         n = sum(1 for x in f if x)
-        return f"history/{case['stream']}/{case['action']}/" + ('blank' if blank(case['condition']) else 'cond') + \
+        return f"history/{case['stream']}/{case['action']}{'@entry' if case.get('entry') else ''}/" + \
+            ('blank' if blank(case['condition']) else 'cond') + \
             '/' + ('none' if n == 0 else 'all' if n == len(f) else 'some')
     return f"scope/{case['via']}/" + ('fired' if obs.get('snapshots') else 'rejected')
 
